@@ -263,3 +263,21 @@ func TestDbgReplayDump(t *testing.T) {
 		r.Stop()
 	})
 }
+
+func TestDbgAddrs(t *testing.T) {
+	seed, _ := strconv.ParseUint(os.Getenv("S"), 10, 64)
+	c := registry[os.Getenv("P")]
+	sc, err := c.Gen(seed, "quick")
+	if err != nil {
+		t.Fatal(err)
+	}
+	w, _ := buildWorld(sc)
+	l := model.New(w, model.Options{})
+	for l.Height < w.Tip() {
+		res := l.Step()
+		if res.Height%144 == 0 || res.Height == w.Tip() {
+			fmt.Fprintf(os.Stderr, "h %d addresses %d rated %v notes %v\n", res.Height, len(l.Bal), res.Rated, res.Notes)
+		}
+	}
+	fmt.Fprintf(os.Stderr, "first %d tip %d act %v\n", w.Spec.First, w.Tip(), w.Spec.Config.Act)
+}
